@@ -356,12 +356,16 @@ impl PathTpc {
                 train_params.length
             };
             for speed_limit in &speed_set.speed_limits {
+                let offset_start = speed_limit.offset_start + offset_base;
+                let offset_end = speed_limit.offset_end + offset_base + length_add;
                 // If the speed limit will actually apply a restriction
                 // Note that this comparison is valid since speed max must be positive
-                if speed_limit.speed < train_params.speed_max {
+                // A limit whose extent (including the train length for tail end limits)
+                // is empty restricts no part of the path
+                if speed_limit.speed < train_params.speed_max && offset_start < offset_end {
                     speed_points.insert_speed(&SpeedLimit {
-                        offset_start: speed_limit.offset_start + offset_base,
-                        offset_end: speed_limit.offset_end + offset_base + length_add,
+                        offset_start,
+                        offset_end,
                         speed: speed_limit.speed,
                     })
                 }
